@@ -114,7 +114,9 @@ func (fs *vxFS) uninstall() {
 }
 
 func H12aQ() { h12a(2) }
-func H12aT() { h12a(3) }
+func H12aT() { vxC12Wide = true; h12a(2) }
+
+var vxC12Wide = false
 
 // h12a: LoadLicenses over a virtual tree - no panic for any tree shape or spelling of the directory;
 // shallow files and files not ending in "txt" are ignored; a tree whose remaining files sit at
@@ -135,13 +137,21 @@ func h12a(nfiles int) {
 	fs := &vxFS{cwd: filepath.Dir(filepath.Dir(root)), files: map[string]string{}, dirs: map[string]bool{}}
 	comps := []string{"License", "X", "l", "m", "deep", "Plaintxt"}
 	sufs := []string{".txt", "txt", ".md"}
+	if vxC12Wide {
+		sufs = append(sufs, "")
+	}
 	type exp struct{ cat, name, variant, content string }
 	var want []exp
 	exact := true
 	for i := 0; i < nfiles; i++ {
 		depth := vxChoice(4) + 1 // 1..4 components below the root
 		suf := sufs[vxChoice(len(sufs))]
-		first := []int{0, 3, 5}[vxChoice(3)]
+		first := 0
+		if vxC12Wide {
+			first = vxChoice(len(comps))
+		} else {
+			first = []int{0, 3, 5}[vxChoice(3)]
+		}
 		var parts []string
 		for d := 0; d < depth; d++ {
 			parts = append(parts, comps[(first+d)%len(comps)])
